@@ -8,6 +8,7 @@ CONSTANTS
   HeldMs = 2
   MaxTime = 4
   Lax = 0
+  MuteSw = {"s_no"}
   MaxOps = 5
   LongAgo <- MCLongAgo
 INVARIANT Mirror
